@@ -812,6 +812,84 @@ func c15Concurrent(c *Ctx, n int, stall bool) {
 	c.hist("ids", fmt.Sprintf("distinct=%d", len(allIDs)))
 }
 
+// c15Tenants: one provider instance, two tenants (Host headers) whose response signing keys differ (the storage picks
+// the key by the issuer in the request context), clients of both tenants whose key loads overlap.  Every reply must
+// carry the certificate of its own tenant: metadata key descriptors, the /certificate download, the certificate inside
+// a signed Response.
+func c15Tenants(c *Ctx, n int) {
+	c15InitKeys()
+	hosts := []string{"tenant-a.example.com", "tenant-b.example.org:8443"}
+	keys := map[string]*KeyPair{hosts[0]: c15Keys[0], hosts[1]: c15Keys[1]}
+	rng := c.rng.fork()
+	spec := newSpec(rng)
+	st, prov, err := spec.build()
+	if err != nil {
+		c.issue(Issue{Kind: "disagreement", What: "world construction failed: " + err.Error(), Site: "c15"})
+		return
+	}
+	st.TenantKeys = map[string]*key.CertificateAndKey{}
+	for h, kp := range keys {
+		st.TenantKeys[issuerFor(h)] = &key.CertificateAndKey{Key: kp.Key, Certificate: kp.Cert}
+	}
+	for _, overlap := range []bool{false, true} {
+		if overlap {
+			st.KeyMeet = newMeeting(2)
+		}
+		h := prov.HttpHandler()
+		kinds := make([]string, n)
+		reqHost := make([]string, n)
+		raw := make([]Reply, n)
+		var wg sync.WaitGroup
+		start := make(chan struct{})
+		for i := 0; i < n; i++ {
+			reqHost[i] = hosts[i%2]
+			kinds[i] = []string{"md", "cert", "md"}[(i/2)%3]
+			wg.Add(1)
+			go func(i int) {
+				defer wg.Done()
+				<-start
+				raw[i] = serve(h, mkPlain(kinds[i], reqHost[i]).HTTP)
+			}(i)
+		}
+		close(start)
+		wg.Wait()
+		for i := 0; i < n; i++ {
+			c.rep.Evaluations++
+			c.nontrivial(fmt.Sprintf("tenant|%v|%s|%d", overlap, kinds[i], i%2))
+			c.hist("tenants", fmt.Sprintf("%s overlap=%v", kinds[i], overlap))
+			own, other := keys[reqHost[i]], keys[hosts[1-i%2]]
+			var got string
+			switch kinds[i] {
+			case "md":
+				if d := parseMetadata(raw[i].Body); len(d.Certs) > 0 {
+					got = strings.Join(strings.Fields(d.Certs[0]), "")
+				}
+			case "cert":
+				if blk, _ := pem.Decode([]byte(raw[i].Body)); blk != nil {
+					got = base64.StdEncoding.EncodeToString(blk.Bytes)
+				}
+			}
+			if got != own.B64 {
+				what := "a reply to one tenant does not carry that tenant's response signing certificate"
+				cls := "tenant-key:" + kinds[i]
+				if got == other.B64 {
+					what = "a reply to one tenant carries the response signing certificate of another tenant whose request was served at the same time"
+					cls += ":foreign"
+				}
+				c.issue(Issue{Kind: "violation", What: what, Site: "concurrent-isolation", Class: cls,
+					Detail: map[string]interface{}{"clients": n, "overlapping_key_loads": overlap, "request": kinds[i], "host": reqHost[i], "code": raw[i].Code, "own_cert_prefix": own.B64[:24], "got_cert_prefix": firstN(got, 24)}})
+			}
+		}
+	}
+}
+
+func firstN(s string, n int) string {
+	if len(s) > n {
+		return s[:n]
+	}
+	return s
+}
+
 func unknownIssuerSSO(host, m string) c15Req {
 	// an AuthnRequest from an unregistered issuer: answered with a failed Response in the HTTP body
 	a := AuthnSpec{ID: "_req-" + m, Version: "2.0", IssueInstant: time.Now().UTC().Format("2006-01-02T15:04:05Z"), Destination: "-", ProtocolBinding: "-",
@@ -854,7 +932,7 @@ func c15UUID(c *Ctx) {
 func runC15(c *Ctx) {
 	c15InitKeys()
 	c15UUID(c)
-	c.rep.Rule = "(a) history differential: random histories of requests on all endpoints (3 Host headers, 2 service providers, signed / unsigned / replayed-with-swapped-RelayState SSO requests, callbacks for completed and pending records, attribute queries, logout, metadata, certificate) interleaved with storage changes (key rotation, transient key fault, re-registration of an application under another entity ID, completion, user change) on ONE long-lived provider, each request also served by a world freshly built from the same data - summaries must agree; (b) N concurrent clients (N = 2, 16, 64; thorough also 256) each with its own session, service provider, Host and user, all endpoints mixed, with and without clients that stall inside Write: reply = reply alone, no foreign marker, all IDs distinct '_'+UUID. Non-trivial = request served; distinct = (generator, request kind / variant). Built with -race in the check: any race report fails it."
+	c.rep.Rule = "(a) history differential: random histories of requests on all endpoints (3 Host headers, 2 service providers, signed / unsigned / replayed-with-swapped-RelayState SSO requests, callbacks for completed and pending records, attribute queries, logout, metadata, certificate) interleaved with storage changes (key rotation, transient key fault, re-registration of an application under another entity ID, completion, user change) on ONE long-lived provider, each request also served by a world freshly built from the same data - summaries must agree; (b) N concurrent clients (N = 2, 16, 64; thorough also 256) each with its own session, service provider, Host and user, all endpoints mixed, with and without clients that stall inside Write: reply = reply alone, no foreign marker, all IDs distinct '_'+UUID; (c) two tenants (Host headers) with different response signing keys in a context-dependent storage, 16 clients whose key loads overlap (a meeting point inside GetResponseSigningKey): metadata and /certificate replies carry the own tenant's certificate. Non-trivial = request served; distinct = (generator, request kind / variant). Built with -race in the check: any race report fails it."
 	c15Reuse(c, 1)
 	ns := []int{2, 16, 64}
 	if c.thorough() {
@@ -869,5 +947,6 @@ func runC15(c *Ctx) {
 			c15Concurrent(c, n, false)
 			c15Concurrent(c, n, true)
 		}
+		c15Tenants(c, 16)
 	}
 }
